@@ -2188,6 +2188,15 @@ impl Server {
                     "removing a listener with base_sessions_count == 0 would underflow"
                 );
                 self.base_sessions_count -= 1;
+                // the listener's slab entry lives from AddListener to here,
+                // whatever activations and hand-overs happened in between
+                let listen_token = match ListenerType::try_from(remove.proxy) {
+                    Ok(ListenerType::Http) => self.http.borrow().listener_token(&address),
+                    Ok(ListenerType::Https) => self.https.borrow().listener_token(&address),
+                    Ok(ListenerType::Tcp) => self.tcp.borrow().listener_token(&address),
+                    Ok(ListenerType::Udp) => self.udp.borrow().listener_token(&address),
+                    Err(_) => None,
+                };
                 let response = match ListenerType::try_from(remove.proxy) {
                     Ok(ListenerType::Http) => self.http.borrow_mut().notify(request),
                     Ok(ListenerType::Https) => self.https.borrow_mut().notify(request),
@@ -2195,6 +2204,13 @@ impl Server {
                     Ok(ListenerType::Udp) => self.udp.borrow_mut().notify(request),
                     Err(_) => WorkerResponse::error(req_id, "Wrong variant ListenerType"),
                 };
+                if let Some(token) = listen_token {
+                    let mut sessions = self.sessions.borrow_mut();
+                    if sessions.slab.contains(token.0) {
+                        sessions.slab.remove(token.0);
+                        info!("removed listen token {:?}", token);
+                    }
+                }
                 push_queue(response);
             }
             Some(RequestType::ActivateListener(ref activate)) => {
@@ -2648,13 +2664,10 @@ impl Server {
                     );
                 }
 
-                {
-                    let mut sessions = self.sessions.borrow_mut();
-                    if sessions.slab.contains(token.0) {
-                        sessions.slab.remove(token.0);
-                        info!("removed listen token {:?}", token);
-                    }
-                }
+                // The `ListenSession` slab entry stays with the listener until
+                // RemoveListener: its token is what a later ActivateListener
+                // registers the new socket under.
+                let _ = token;
 
                 if deactivate.to_scm {
                     self.unblock_scm_socket();
@@ -2695,10 +2708,7 @@ impl Server {
                         deactivate, e
                     );
                 }
-                if self.sessions.borrow().slab.contains(token.0) {
-                    self.sessions.borrow_mut().slab.remove(token.0);
-                    info!("removed listen token {:?}", token);
-                }
+                let _ = token; // see the HTTP arm: the slab entry goes with RemoveListener
 
                 if deactivate.to_scm {
                     self.unblock_scm_socket();
@@ -2737,10 +2747,7 @@ impl Server {
                         deactivate, e
                     );
                 }
-                if self.sessions.borrow().slab.contains(token.0) {
-                    self.sessions.borrow_mut().slab.remove(token.0);
-                    info!("removed listen token {:?}", token);
-                }
+                let _ = token; // see the HTTP arm: the slab entry goes with RemoveListener
 
                 if deactivate.to_scm {
                     self.unblock_scm_socket();
@@ -2779,10 +2786,7 @@ impl Server {
                         deactivate, e
                     );
                 }
-                if self.sessions.borrow().slab.contains(token.0) {
-                    self.sessions.borrow_mut().slab.remove(token.0);
-                    info!("removed listen token {:?}", token);
-                }
+                let _ = token; // see the HTTP arm: the slab entry goes with RemoveListener
 
                 if deactivate.to_scm {
                     self.unblock_scm_socket();
